@@ -392,12 +392,16 @@ pub struct RunFacts {
 }
 
 /// satisfy -> encode -> decode -> Bit Machine under the dummy environment.
-pub fn run_program(
+pub fn run_program(compiled: &CompiledProgram, wit: WitnessValues, pruned: bool) -> String {
+    run_program_env(compiled, wit, pruned, simfony::dummy_env::dummy())
+}
+
+pub fn run_program_env(
     compiled: &CompiledProgram,
     wit: WitnessValues,
     pruned: bool,
+    env: simplicity::jet::elements::ElementsEnv<Arc<simplicity::elements::Transaction>>,
 ) -> String {
-    let env = simfony::dummy_env::dummy();
     let commit_cmr = compiled.commit().cmr();
     let wit_copy = wit.clone();
     let satisfied = if pruned {
@@ -747,6 +751,28 @@ pub fn handle(line: &str) -> Result<String, String> {
         ("term", 3) => term_cmd(a[0].as_atom()?, &a[1], a[2].as_usize()? != 0),
         ("run", 4) => run_cmd(a[0].as_atom()?, &a[1], &a[2], a[3].as_usize()? != 0, false),
         ("runp", 4) => run_cmd(a[0].as_atom()?, &a[1], &a[2], a[3].as_usize()? != 0, true),
+        ("runpe", 5) => {
+            // (runpe text args wit dbg (locktime sequence fee)): unpruned and pruned under one non-default environment
+            let e = a[4].as_list()?;
+            let mk = || -> Result<_, String> {
+                Ok(simfony::dummy_env::dummy_with(
+                    simplicity::elements::LockTime::from_consensus(e[0].as_usize()? as u32),
+                    simplicity::elements::Sequence(e[1].as_usize()? as u32),
+                    e[2].as_usize()? != 0,
+                ))
+            };
+            let template = match TemplateProgram::new(a[0].as_atom()?) {
+                Ok(t) => t,
+                Err(e) => return Ok(format!("(rej {})", quote(&first_line(&e)))),
+            };
+            let compiled = match template.instantiate(Arguments::from(name_values(&a[1])?), a[3].as_usize()? != 0) {
+                Ok(c) => c,
+                Err(e) => return Ok(format!("(cerr {})", quote(&first_line(&e)))),
+            };
+            let u = run_program_env(&compiled, WitnessValues::from(name_values(&a[2])?), false, mk()?);
+            let p = run_program_env(&compiled, WitnessValues::from(name_values(&a[2])?), true, mk()?);
+            Ok(format!("(unpruned {}) (pruned {})", u, p))
+        }
         _ => Err(format!("bad core case {}", &line[..line.len().min(80)])),
     }
 }
